@@ -19,7 +19,7 @@ Separate Extraction
   Model.Number.parse_int Model.Number.spec_int
   Model.Inplace.inplace Model.Inplace.dec
   Model.Visitor.run Model.Visitor.node_of Model.Visitor.events
-  Model.Cas.run Model.Cas.init Model.Arc.runh
+  Model.Cas.run Model.Cas.init Model.Cas.step Model.Arc.runh
   Model.ObjEq.obj_eq Model.Many.rec Model.Promote.promote Model.Promote.get_first
   Model.Pretty.run Model.Pretty.calls Model.Pretty.pretty
   Model.NodeBudget.peak Model.NodeBudget.len
